@@ -354,6 +354,65 @@ func duplexCase(dir string, n int, transport, which string) string {
 	return fmt.Sprintf("class=%s speed=%s leak=%d follow=ok", strings.ReplaceAll(class, " ", "_"), speed, leak)
 }
 
+// svcCtx: the context given to the serving call ends (cancel, or its deadline passes) while a client connection is idle or stalled in
+// the middle of a frame: the service's per-connection read must end, the client sees EOF, and after Shutdown the serving call returns.
+func svcCtx(dir string, n int, kind, state string) string {
+	svc, _ := varlink.NewService("v", "p", "1", "u")
+	path := fmt.Sprintf("%s/z%d", dir, n)
+	var ctx context.Context
+	var cancel context.CancelFunc
+	if kind == "deadline" {
+		ctx, cancel = context.WithTimeout(context.Background(), 250*time.Millisecond)
+	} else {
+		ctx, cancel = context.WithCancel(context.Background())
+	}
+	defer cancel()
+	if err := svc.Bind(context.Background(), "unix:"+path); err != nil {
+		return "X bind " + err.Error()
+	}
+	done := make(chan error, 1)
+	go func() { done <- svc.DoListen(ctx, 0) }()
+	c, err := net.Dial("unix", path)
+	if err != nil {
+		svc.Shutdown()
+		return "X dial " + err.Error()
+	}
+	defer c.Close()
+	// one round trip, so that the connection is being served
+	c.SetDeadline(time.Now().Add(5 * time.Second))
+	c.Write([]byte("{\"method\":\"org.varlink.service.GetInfo\"}\x00"))
+	if _, err := bufio.NewReader(c).ReadBytes(0); err != nil {
+		svc.Shutdown()
+		return "X first call " + err.Error()
+	}
+	if state == "midframe" {
+		c.Write([]byte("{\"method\":\"org.varl"))
+	}
+	if kind == "cancel" {
+		time.Sleep(60 * time.Millisecond)
+		cancel()
+	}
+	start := time.Now()
+	c.SetDeadline(time.Now().Add(4 * time.Second))
+	var b [64]byte
+	_, rerr := c.Read(b[:])
+	class, speed := "ctx", "fast"
+	if rerr != io.EOF {
+		class = "other:the-idle-connection-was-not-ended:" + strings.ReplaceAll(fmt.Sprint(rerr), " ", "_")
+	}
+	if time.Since(start) > 2*time.Second {
+		speed = fmt.Sprintf("slow:%dms", time.Since(start).Milliseconds())
+	}
+	svc.Shutdown()
+	follow := "ok"
+	select {
+	case <-done:
+	case <-time.After(4 * time.Second):
+		follow = "bad:the-serving-call-did-not-return-after-Shutdown"
+	}
+	return fmt.Sprintf("class=%s speed=%s leak=0 follow=%s", class, speed, follow)
+}
+
 func runCase(dir string, n int, line string) (res string) {
 	defer func() {
 		if r := recover(); r != nil {
@@ -364,6 +423,9 @@ func runCase(dir string, n int, line string) (res string) {
 	transport, op, kind, instant := f[0], f[1], f[2], f[3]
 	if op == "clientrecv" {
 		return clientCase(dir, n, transport, kind, instant)
+	}
+	if op == "svcctx" {
+		return svcCtx(dir, n, kind, instant)
 	}
 	if op == "duplex" {
 		return duplexCase(dir, n, transport, instant)
@@ -488,6 +550,9 @@ func runCase(dir string, n int, line string) (res string) {
 	}
 	if instant == "after" && kind == "deadline" {
 		time.Sleep(150 * time.Millisecond)
+		// ... and the follow-up runs under context.Background() itself (Done() == nil), as a caller without any context of its own would;
+		// the scenario watchdog of main() bounds it
+		live = func() (context.Context, context.CancelFunc) { return context.Background(), func() {} }
 	}
 	follow := "ok"
 	if op == "write" {
